@@ -17,6 +17,7 @@ import time
 
 HERE = os.path.dirname(os.path.abspath(__file__))
 VERIF = os.path.dirname(HERE)
+OUT = os.environ.get("VERIF_OUT") or VERIF
 sys.path.insert(0, HERE)
 import gen  # noqa: E402
 
@@ -131,10 +132,10 @@ def main():
     known = known_findings()
     confirmed, inconclusive, violations, mismatches, samples = 0, [], [], [], []
     exit_code = 0
-    os.makedirs(os.path.join(VERIF, "replays", "C20"), exist_ok=True)
-    for f in os.listdir(os.path.join(VERIF, "replays", "C20")):
+    os.makedirs(os.path.join(OUT, "replays", "C20"), exist_ok=True)
+    for f in os.listdir(os.path.join(OUT, "replays", "C20")):
         if f.startswith(tier + "-"):
-            os.remove(os.path.join(VERIF, "replays", "C20", f))
+            os.remove(os.path.join(OUT, "replays", "C20", f))
     seen_known = set()
     for func, out, secs, first in results:
         kinds = func.split("_")[1]
@@ -156,7 +157,7 @@ def main():
                 rec["known_finding"] = kf[0]["what"]
                 violations.append(rec)
                 continue
-            path = os.path.join(VERIF, "replays", "C20", "%s-%s_%s.json" % (tier, func, "".join(str(x) for x in first)))
+            path = os.path.join(OUT, "replays", "C20", "%s-%s_%s.json" % (tier, func, "".join(str(x) for x in first)))
             json.dump({"property": "C20", "function": func, "events": evs, "verdict": verdict}, open(path, "w"))
             rec["replay"] = path
             violations.append(rec)
@@ -201,8 +202,8 @@ def main():
         "wall_s": round(time.time() - start, 1),
         "violations": len([v for v in violations if "known_finding" not in v]),
     }
-    os.makedirs(os.path.join(VERIF, "evidence"), exist_ok=True)
-    json.dump(ev, open(os.path.join(VERIF, "evidence", "C20.json"), "w"), indent=1)
+    os.makedirs(os.path.join(OUT, "evidence"), exist_ok=True)
+    json.dump(ev, open(os.path.join(OUT, "evidence", "C20.json"), "w"), indent=1)
     print("C20 %s: functions=%d confirmed=%d violations=%d inconclusive=%d wall=%.1fs exit=%d" % (
         tier, len(results), confirmed, len(violations), len(inconclusive) + len(mismatches), time.time() - start, exit_code))
     return exit_code
